@@ -14,6 +14,9 @@ import (
 )
 
 var props = map[string]func(*Ctx){
+	"C02": propC02,
+	"C03": propC03,
+	"C05": propC05,
 	"C12": propC12,
 }
 
